@@ -84,7 +84,9 @@ class C30(Prop):
           o = ask()
           o._vf_mark = token
           o = None
-          gc.collect()
+          # (one full collection per case; the young generation otherwise - a full collection of
+          # a long-running check process takes seconds)
+          gc.collect() if (round_ == 0 and k == "fabric") else gc.collect(0)
           back = getattr(ask(), "_vf_mark", None)
           if back != token:
             info["lifetime_failure"] = (k, token, back)
